@@ -58,15 +58,16 @@ func rewriteURL(rewriteRegex map[*regexp.Regexp]string, req *http.Request) error
 	// We only want to use path part for rewriting and therefore trim prefix if it exists
 	rawURI := req.RequestURI
 	if rawURI != "" && rawURI[0] != '/' {
-		prefix := ""
-		if req.URL.Scheme != "" {
-			prefix = req.URL.Scheme + "://"
-		}
-		if req.URL.Host != "" {
-			prefix += req.URL.Host // host or host:port
-		}
-		if prefix != "" {
-			rawURI = strings.TrimPrefix(rawURI, prefix)
+		// Absolute form (RFC 7230 5.3.2): scheme "://" authority [path] ["?" query]. The prefix can not be
+		// rebuilt from req.URL (the scheme is lower-cased there, userinfo is kept apart), so cut the
+		// request target where the authority ends.
+		if i := strings.Index(rawURI, "://"); i >= 0 {
+			rest := rawURI[i+3:]
+			if j := strings.IndexAny(rest, "/?"); j >= 0 {
+				rawURI = rest[j:]
+			} else {
+				rawURI = ""
+			}
 		}
 	}
 
